@@ -74,6 +74,12 @@ def norm_snapshot_module(m, dec):
         if all(s in (0, -1) for s in m["in_link_slots"]):
             m["in_link_slots"] = None
     pl = m.get("payload") or {}
+    if "slot_count" in pl:
+        pl = dict(pl)
+        pl.pop("slot_count")
+        # the sample name field is 22 bytes, NUL padded
+        pl["samples"] = {i: dict(sm, name=sm["name"][:22].rstrip(b"\0")) for i, sm in pl["samples"].items()}
+        m["payload"] = pl
     dpl = (dec or {}).get("payload") or {}
     if "project" in pl and "project" in dpl:
         pl = dict(pl)
